@@ -106,7 +106,7 @@ def build_unit(name, workdir):
     # type lint: CBMC's C front end accepts implicit pointer<->integer conversions silently; gcc does not
     lint = subprocess.run(['gcc', '-fsyntax-only', '-std=gnu11', '-include', os.path.join(ROOT, 'stubs', 'vs_lint.h'), '-I', os.path.join(ROOT, 'stubs'),
                            '-Werror=int-conversion', '-Werror=incompatible-pointer-types', '-Werror=implicit-function-declaration',
-                           '-Wno-discarded-qualifiers', '-w', '-Werror=int-conversion', cfile], capture_output=True, text=True)
+                           '-Wno-discarded-qualifiers', '-Werror=int-conversion', cfile], capture_output=True, text=True)
     errs = [l for l in lint.stderr.split('\n') if ' error: ' in l]
     if errs and not os.environ.get('VS_NOLINT'):
         raise PipelineError('generated C for unit %s fails the type lint (lowering bug, not a violation):\n  ' % name + '\n  '.join(errs[:8]))
